@@ -7,7 +7,7 @@ CONSTANTS
   MaxFeed = 1
   MaxEof = 1
   SlowSet = {"C", "D", "X"}
-  CfgWrite = FALSE
+  CfgWrite = TRUE
 INVARIANT MonitorQuiet
 INVARIANT OneReceivePath
 INVARIANT LockDiscipline
